@@ -15,16 +15,33 @@ PLAN = dict(
          "against f^((p^12-1)/n); decode: for seeded points the valid encodings, every coordinate replaced by c+p (when it fits 256 "
          "bits), p, 2^256-1, off-curve neighbours, wrong compression bytes, x without a square root, special all-zero/all-p/mixed "
          "strings, twist points with y.a0=0, short and long inputs, random strings - accept => strict reference accepts AND "
-         "re-encoding returns the input AND the decoded value behaves as the reference point. A case is non-trivial unless marked; "
+         "re-encoding returns the input AND the decoded value behaves as the reference point; first: which operation is the FIRST "
+         "to touch a freshly computed element - every producer of a G1/G2 element (ScalarBaseMult, ScalarMult of a decoded / a fresh "
+         "point / onto its operand, Add of decoded / fresh points / onto its operand, Double, Neg of a decoded / a fresh point / in "
+         "place, Set of a fresh point, RandomG1/G2 from a seeded source, the three decoders incl. over a used receiver, a copy of the "
+         "generator, the point at infinity as [0]G/[N]G, P+(-P), [N]P and decoded zeros) x every consumer (Marshal, "
+         "MarshalUncompressed, MarshalCompressed, String, IsOnCurve, Equal as receiver and as argument, Pair, Miller+Finalize, Add "
+         "as first / second / both operands, ScalarMult, Neg, Double, Set as source, and the in-place forms that leave a new fresh "
+         "value behind: aliased Add/Neg/Double/ScalarMult, Unmarshal, UnmarshalCompressed, Set, ScalarBaseMult onto the element): "
+         "the element is computed twice from the same inputs, the twin is seen through Marshal() first and compared with ref/bn, "
+         "the other gets the consumer as its very first operation and then 6 (GT: 5; thorough: all) further consumers in seeded order on "
+         "the same object, each checked again (encodings against ref/bn, Pair/Miller with [m/s]generator of the other group against "
+         "g0^m in the Fp12 model, String against the String of an element decoded from the reference bytes, IsOnCurve must hold, "
+         "the result of Equal is representation-sensitive and not judged), Marshal() at the end, twin unchanged; the same scheme "
+         "for GT (producers Pair, Miller+Finalize, ScalarMultGT, ScalarBaseMultGT incl. an own table of a fresh element, "
+         "GT.ScalarMult, GT.ScalarBaseMult, Add, Set, SetOne, Unmarshal, RandomGT x consumers Marshal, String, Marshal+Unmarshal "
+         "round trip, Set, Add in every operand position, GT.ScalarMult, ScalarMultGT, GenerateGTFieldTable+ScalarBaseMultGT with "
+         "the element as base, aliased Add/ScalarMult, Set/SetOne/Unmarshal/ScalarBaseMult onto it, Finalize in place). "
+         "A case is non-trivial unless marked; "
          "distinct = distinct class keys (configuration | workload / family / window position and value / scalar family / "
-         "representation / candidate kind)",
+         "representation / candidate kind / producer x first consumer)",
     jobs=both("c09.g1", _CFG, shards=(2, 8), floor=1000) + both("c09.g2", _CFG, shards=(2, 8), floor=1000)
     + both("c09.gt", _CFG, shards=(2, 8), floor=1000) + both("c09.pairing", _CFG, shards=(4, 16), floor=200)
-    + both("c09.decode", _CFG, shards=(2, 8), floor=200)
+    + both("c09.decode", _CFG, shards=(2, 8), floor=200) + both("c09.first", _CFG, shards=(2, 8), floor=1000)
     # the plugin-tag build: gfp_plugin_amd64.s with the generic gfp2/g1 helpers
     + plugin("c09.g1", shards=(1, 4), floor=1000) + plugin("c09.g2", shards=(1, 4), floor=1000)
     + plugin("c09.gt", shards=(1, 4), floor=1000) + plugin("c09.pairing", shards=(2, 8), floor=200)
-    + plugin("c09.decode", shards=(1, 4), floor=200),
+    + plugin("c09.decode", shards=(1, 4), floor=200) + plugin("c09.first", shards=(1, 4), floor=1000),
     assumptions=[
         "reference model harness/ref/bn (Fp, Fp2, Fp12 = Fp[w]/(w^12+2), affine G1/G2, encodings), validated at every child start: "
         "BN polynomials, [n]P1 = [n]P2 = O, twist order n(2p-n), GM/T 0044.5 annex A/B/C key, signature and ciphertext points, the "
@@ -38,6 +55,11 @@ PLAN = dict(
         "points of the twist outside the order-n subgroup: the property does not demand a subgroup check, either verdict of the G2 "
         "decoders is allowed (events decode.unspecified-*), but an accepted one must re-encode identically",
         "ScalarMult/ScalarMultGT with scalar lengths other than 32 bytes: refusal or the correct multiple are both accepted",
+        "G1/G2.Equal compares projective representations: its result on two representations of one point is not judged "
+        "(events first.equal-not-judged.*), only that it leaves both operands intact; String has no specified format: it must be "
+        "the text the library prints for an element decoded from the reference encoding of the same value; MarshalCompressed and "
+        "Miller are not applied to the point at infinity (outside their documented domain) and the verdict of IsOnCurve on it is "
+        "not judged",
     ],
 )
 
@@ -47,7 +69,9 @@ CLAIM = dict(
          "doubling and all encodings are compared with exact affine big-integer arithmetic; GT multiplication and the four "
          "exponentiation entry points with exact arithmetic in Fp[w]/(w^12+2); the pairing with the GM/T 0044.5 published values, with "
          "g0^(ab) for e([a]P1,[b]P2), with its laws and with f^((p^12-1)/n) for the final exponentiation; the five decoders with a "
-         "strict reference accept set (canonical coordinates, on curve, re-encoding identical). ADX, non-ADX, AVX2/SSE select, "
+         "strict reference accept set (canonical coordinates, on curve, re-encoding identical); every exported operation as the first "
+         "one to touch an element freshly produced in every way the API offers (projective results are normalised in place by the "
+         "encoders, String and IsOnCurve), followed by the others in seeded order on the same object, for G1, G2 and GT. ADX, non-ADX, AVX2/SSE select, "
          "plugin-tag assembly (with and without ADX) and purego back ends. Held on the cases executed; not a proof.",
     design_ref="DESIGN.md 6 (C09)",
     note="trusted: harness/ref/bn, math/big, the published GM/T 0044.5 values; no independent Miller loop; subgroup membership of "
